@@ -34,6 +34,8 @@ import (
 //	sized_data       data set for the size template whose message is exactly Size bytes
 //	sized_tpl        template set with NFields one-byte fields (message 24+4*NFields bytes), then a
 //	                 data record for it (which may only go out if the template did)
+//	wide_record      one data record for the wide template (an unsigned32 and three strings) whose fields are
+//	                 each encodable but add up to Size bytes, beyond what a message holds
 //	illtyped         data record for the ill-typed template holding a value that cannot be encoded: Ill names it
 type Step struct {
 	Kind    string        `json:"kind"`
@@ -88,7 +90,12 @@ func illTpl() []ref.Field {
 	return []ref.Field{glue.UserField(ref.TU8), glue.UserField(ref.TIPv4), glue.UserField(ref.TIPv6), glue.UserField(ref.TMac), glue.UserFixedOctets(5), glue.UserField(ref.TU8)}
 }
 
+func wideTpl() []ref.Field {
+	return []ref.Field{glue.UserField(ref.TU32), glue.UserField(ref.TString), glue.UserField(ref.TString), glue.UserField(ref.TString)}
+}
+
 const (
+	idWide   = 999
 	idSize   = 1000
 	idIll    = 1001
 	idMarker = 1002
@@ -225,9 +232,12 @@ func runCase(c Case, st *Stats) *ev.Failure {
 			if onWire[s.ID] {
 				continue
 			}
-			f := []ref.Field{glue.UserField(ref.TU16)}
-			set, err := exph.DataSet(s.ID, f, [][]ref.Value{{{U: 1}}}, s.Path)
-			fl = send(i, fmt.Sprintf("data for template id %d that was never sent", s.ID), set, err, nil, false)
+			f, r := []ref.Field{glue.UserField(ref.TU16)}, []ref.Value{{U: 1}}
+			if s.Delta == -100 { // a record without any field
+				f, r = nil, nil
+			}
+			set, err := exph.DataSet(s.ID, f, [][]ref.Value{r}, s.Path)
+			fl = send(i, fmt.Sprintf("data (a record of %d fields) for template id %d that was never sent", len(f), s.ID), set, err, nil, false)
 			if fl == nil {
 				fl = marker(i)
 			}
@@ -318,6 +328,24 @@ func runCase(c Case, st *Stats) *ev.Failure {
 				// error is fine, success needs the bytes on the wire
 				fl = send(i, what, set, err, ref.DataMessage(h, ref.Template{ID: idSize, Fields: sizeTpl()}, r), true)
 			}
+			if fl == nil {
+				fl = marker(i)
+			}
+		case "wide_record":
+			if fl = ensure(i, idWide, wideTpl()); fl != nil {
+				break
+			}
+			// three strings of about a third of Size each (every one below the 65534 bytes a string
+			// may have); only their sum is too much
+			rest := s.Size - 4
+			r := []ref.Value{{U: 7}}
+			for k := 3; k > 0; k-- {
+				l := rest/k - 3
+				r = append(r, ref.Value{B: bytes.Repeat([]byte{byte('a' + k)}, l)})
+				rest -= l + 3
+			}
+			set, err := exph.DataSet(idWide, wideTpl(), [][]ref.Value{r}, s.Path)
+			fl = send(i, fmt.Sprintf("one record of %d bytes (no field longer than %d)", s.Size, len(r[1].B)), set, err, nil, false)
 			if fl == nil {
 				fl = marker(i)
 			}
@@ -599,8 +627,12 @@ func runJSON(c Case, st *Stats) *ev.Failure {
 			if registered[s.ID] {
 				continue
 			}
-			set, err := exph.DataSet(s.ID, []ref.Field{glue.UserField(ref.TU16)}, [][]ref.Value{{{U: 1}}}, s.Path)
-			if fl = invalid(i, fmt.Sprintf("data for template id %d that was never sent", s.ID), set, err); fl == nil {
+			f, r := []ref.Field{glue.UserField(ref.TU16)}, []ref.Value{{U: 1}}
+			if s.Delta == -100 { // a record without any field
+				f, r = nil, nil
+			}
+			set, err := exph.DataSet(s.ID, f, [][]ref.Value{r}, s.Path)
+			if fl = invalid(i, fmt.Sprintf("data (a record of %d fields) for template id %d that was never sent", len(f), s.ID), set, err); fl == nil {
 				fl = marker(i)
 			}
 		case "data_wrong_count":
@@ -691,6 +723,7 @@ func genJSONCase(t *rapid.T) Case {
 			}
 		case 3, 5:
 			s.Kind, s.ID = "data_unknown_id", rapid.SampledFrom([]uint16{255, 999, 4000, 40000, 65535}).Draw(t, "uid")
+			s.Delta = rapid.SampledFrom([]int{0, 0, -100}).Draw(t, "unknown_fields")
 		case 4, 6:
 			if len(tpls) == 0 {
 				s.Kind = "undefined"
@@ -798,6 +831,7 @@ func genCase(t *rapid.T) Case {
 			}
 		case 3:
 			s.Kind, s.ID = "data_unknown_id", rapid.SampledFrom([]uint16{255, 256, 300, 999, 4000, 65535}).Draw(t, "uid")
+			s.Delta = rapid.SampledFrom([]int{0, 0, -100}).Draw(t, "unknown_fields")
 			if s.ID >= 256 && int(s.ID) < int(nextID)+12 && s.ID != 999 {
 				s.ID = 40000
 			}
@@ -865,6 +899,15 @@ func TestC09(t *testing.T) {
 			if f := runRecorded("enum_size", c); f != nil {
 				rec.Violation("enum_size", c, f.Msg)
 				t.Fatalf("%s", f.Msg)
+			}
+		}
+		for _, size := range []int{65536, 65540, 66010, 98304, 131072 + 20, 131072 + 474, 180000, 196000} {
+			for path := 0; path < 4; path++ {
+				c := Case{Proto: proto, Steps: []Step{{Kind: "wide_record", Size: size, Path: path}}}
+				if f := runRecorded("enum_size", c); f != nil {
+					rec.Violation("enum_size", c, f.Msg)
+					t.Fatalf("%s", f.Msg)
+				}
 			}
 		}
 		for _, ill := range ills {
